@@ -582,6 +582,9 @@ def ref_stage(evname, listeners, payload_in):
     return log, vals
 
 
+LOOP_SLACK = 4      # every receive loop of the harness stops after (expected messages + LOOP_SLACK) rounds
+
+
 class Call:
     """one RPC of the shape given by the case, on the given end points; records what each side sees"""
 
@@ -589,6 +592,7 @@ class Call:
         self.loop, self.case, self.rec, self.active = loop, case, rec, active
         self.seen = {}
         self.client = {'replies': []}
+        self.gate = None
 
     # -- server application
     def make_handler(self, tag):
@@ -601,17 +605,48 @@ class Call:
         from grpclib.const import Status
         from grpclib.exceptions import GRPCError
         c = self.case
+        mid = c.get('mid')
         self.seen['handler'] = list(tag)
         self.seen['md'] = md_tags(stream.metadata.items())
-        if c['card'][0] == 'S':
-            self.seen['reqs'] = [list(m) async for m in stream]
-        else:
-            m = await stream.recv_message()
-            self.seen['reqs'] = [list(m)] if m is not None else []
-        if c['explicit_im']:
+        reqs = self.seen['reqs'] = []
+        limit = len(c['reqs']) + LOOP_SLACK
+
+        async def drain():
+            # `async for message in stream`, bounded: a stream that never reports its end is an
+            # observation (overrun), not a reason for the harness to spin
+            it = stream.__aiter__()
+            for _ in range(limit):
+                try:
+                    m = await it.__anext__()
+                except StopAsyncIteration:
+                    return
+                reqs.append(list(m) if isinstance(m, (bytes, bytearray)) else repr(m))
+            self.seen['overrun'] = True
+        if mid:
+            for _ in range(mid[0]):
+                m = await stream.recv_message()
+                if m is None:
+                    break
+                reqs.append(list(m))
             await stream.send_initial_metadata(metadata=md_pairs(c['im0']))
+            for r in c['reps'][:mid[1]]:
+                await stream.send_message(bytes(r))
+            self.seen['at_gate'] = True
+            await self.gate.wait()
+            await drain()
+            rest = c['reps'][mid[1]:]
+        else:
+            if c['card'][0] == 'S':
+                await drain()
+            else:
+                m = await stream.recv_message()
+                if m is not None:
+                    reqs.append(list(m))
+            if c['explicit_im']:
+                await stream.send_initial_metadata(metadata=md_pairs(c['im0']))
+            rest = c['reps']
         if c['status'] != 'early':
-            for r in c['reps']:
+            for r in rest:
                 await stream.send_message(bytes(r))
         if c['status'] != 'ok':
             if c['explicit_tm']:
@@ -626,25 +661,49 @@ class Call:
         from grpclib import client as gc
         from grpclib.exceptions import GRPCError
         c = self.case
+        mid = c.get('mid')
         cls = {'UU': gc.UnaryUnaryMethod, 'US': gc.UnaryStreamMethod, 'SU': gc.StreamUnaryMethod,
                'SS': gc.StreamStreamMethod}[c['card']]
         m = cls(channel, '/v.S/M', bytes, bytes)
         out = self.client
+        limit = len(c['reps']) + LOOP_SLACK
+
+        async def drain(s):
+            for _ in range(limit):
+                msg = await s.recv_message()
+                if msg is None:
+                    return
+                out['replies'].append(list(msg) if isinstance(msg, (bytes, bytearray)) else repr(msg))
+                if c['card'][1] == 'U':
+                    return
+            out['overrun'] = True
         try:
             async with m.open(metadata=md_pairs(c['md0'])) as s:
                 try:
-                    if not c['reqs']:
-                        await s.send_request(end=True)
-                    for i, r in enumerate(c['reqs']):
-                        await s.send_message(bytes(r), end=(i == len(c['reqs']) - 1))
-                    await s.recv_initial_metadata()
-                    while True:
-                        msg = await s.recv_message()
-                        if msg is None:
-                            break
-                        out['replies'].append(list(msg))
-                        if c['card'][1] == 'U':
-                            break
+                    if mid:
+                        await s.send_request()
+                        for r in c['reqs'][:mid[0]]:
+                            await s.send_message(bytes(r))
+                        await s.recv_initial_metadata()
+                        for _ in range(mid[1]):
+                            msg = await s.recv_message()
+                            if msg is None:
+                                break
+                            out['replies'].append(list(msg))
+                        out['at_gate'] = True
+                        await self.gate.wait()
+                        rest = c['reqs'][mid[0]:]
+                        for i, r in enumerate(rest):
+                            await s.send_message(bytes(r), end=(i == len(rest) - 1))
+                        if not rest:
+                            await s.end()
+                    else:
+                        if not c['reqs']:
+                            await s.send_request(end=True)
+                        for i, r in enumerate(c['reqs']):
+                            await s.send_message(bytes(r), end=(i == len(c['reqs']) - 1))
+                        await s.recv_initial_metadata()
+                    await drain(s)
                     await s.recv_trailing_metadata()
                 finally:
                     if s.initial_metadata is not None:
@@ -717,13 +776,31 @@ def run_e2e(case):
                 ends['server'] = ends['cf']._server
             return ends
 
-        def one_call(ends, active):
-            c = case
+        def do_register(ends):
+            if 'channel' in ends:
+                register(case, 'c', ends['channel'], rec, Call(loop, case, rec, True), case.get('bits', 0))
+            if 'server' in ends:
+                # the handler factory used by listeners must create handlers bound to the current call
+                proxy = Call(loop, case, rec, True)
+                proxy.handle = lambda stream, tag: state['call'].handle(stream, tag)
+                register(case, 's', ends['server'], rec, proxy, case.get('bits', 0))
+
+        def one_call(ends, active, mid=None):
+            """mid = (h, g): the listeners are registered while the call is open, after h request
+            messages and g replies went through; everything later happens on the SAME Stream objects"""
+            import asyncio
+            c = case if mid or not case.get('mid') else dict(case, mid=None)
             call = Call(loop, c, rec, active)
+            call.gate = asyncio.Event()
             state['call'] = call
             obs = {}
             mark = {k: len(v) for k, v in rec.occ.items()}
             nrep, has_im = reply_shape(c)
+
+            def open_gate():
+                obs['at_gate'] = [call.client.get('at_gate', False), call.seen.get('at_gate', False)]
+                do_register(ends)
+                call.gate.set()
             if mode == 'client':
                 ce = ends['ce']
                 t = loop.create_task(call.call(ends['channel']))
@@ -733,11 +810,19 @@ def run_e2e(case):
                 if reqs:
                     sid = reqs[-1].stream_id
                     obs['wire_md'] = md_tags(reqs[-1].headers)
-                    data = b''.join(e.data for e in evs if isinstance(e, h2e.DataReceived)
-                                    and e.stream_id == sid)
-                    obs['wire_reqs'] = split_frames(data)
                     status = '0' if c['status'] == 'ok' else '13'
-                    if not has_im:
+                    if mid:
+                        ce.peer.headers(sid, P.RESP_HEADERS + md_pairs(c['im0']))
+                        for r in c['reps'][:mid[1]]:
+                            ce.peer.data(sid, P.grpc_frame(bytes(r)))
+                        loop.run_quiet(5)
+                        open_gate()
+                        loop.run_quiet(5)
+                        evs += ce.peer.take_events()
+                        for r in c['reps'][mid[1]:nrep]:
+                            ce.peer.data(sid, P.grpc_frame(bytes(r)))
+                        ce.peer.headers(sid, [('grpc-status', status)] + md_pairs(c['tm0']), end_stream=True)
+                    elif not has_im:
                         ce.peer.headers(sid, P.RESP_HEADERS + [('grpc-status', status)] + md_pairs(c['tm0']),
                                         end_stream=True)
                     else:
@@ -745,15 +830,25 @@ def run_e2e(case):
                         for r in c['reps'][:nrep]:
                             ce.peer.data(sid, P.grpc_frame(bytes(r)))
                         ce.peer.headers(sid, [('grpc-status', status)] + md_pairs(c['tm0']), end_stream=True)
+                    data = b''.join(e.data for e in evs if isinstance(e, h2e.DataReceived)
+                                    and e.stream_id == sid)
+                    obs['wire_reqs'] = split_frames(data)
                     loop.run_quiet(5)
                 obs['client'] = dict(call.client)
                 obs['done'] = t.done()
             elif mode == 'server':
                 se = ends['se']
                 sid = se.peer.request(P.REQ_HEADERS + md_pairs(c['md0']), end_stream=False)
-                for i, r in enumerate(c['reqs']):
-                    se.peer.data(sid, P.grpc_frame(bytes(r)), end_stream=(i == len(c['reqs']) - 1))
-                if not c['reqs']:
+                first = c['reqs'][:mid[0]] if mid else []
+                rest = c['reqs'][len(first):]
+                for r in first:
+                    se.peer.data(sid, P.grpc_frame(bytes(r)))
+                if mid:
+                    loop.run_quiet(5)
+                    open_gate()
+                for i, r in enumerate(rest):
+                    se.peer.data(sid, P.grpc_frame(bytes(r)), end_stream=(i == len(rest) - 1))
+                if not rest:
                     se.peer.end(sid)
                 loop.run_quiet(5)
                 evs = [e for e in se.peer.take_events() if getattr(e, 'stream_id', None) == sid]
@@ -774,6 +869,9 @@ def run_e2e(case):
             else:
                 t = loop.create_task(call.call(ends['channel']))
                 loop.run_quiet(10)
+                if mid:
+                    open_gate()
+                    loop.run_quiet(10)
                 obs['client'] = dict(call.client)
                 obs['seen'] = dict(call.seen)
                 obs['done'] = t.done()
@@ -781,19 +879,16 @@ def run_e2e(case):
                     for k, v in rec.occ.items() if len(v) > mark.get(k, 0)}
             bad = [(k, r['lid'], r['ro_bad']) for k, v in rec.occ.items() for o in v[mark.get(k, 0):]
                    for r in o['inv'] if r['ro_bad']]
-            return {'active': active, 'obs': obs, 'logs': logs, 'ro_bad': bad}
+            return {'active': active, 'obs': obs, 'logs': logs, 'ro_bad': bad, 'mid': bool(mid)}
 
         ends = make_ends()
-        if case.get('late'):
-            runs.append(one_call(ends, False))
-        if 'channel' in ends:
-            register(case, 'c', ends['channel'], rec, Call(loop, case, rec, True), case.get('bits', 0))
-        if 'server' in ends:
-            # the handler factory used by listeners must create handlers bound to the current call
-            proxy = Call(loop, case, rec, True)
-            proxy.handle = lambda stream, tag: state['call'].handle(stream, tag)
-            register(case, 's', ends['server'], rec, proxy, case.get('bits', 0))
-        runs.append(one_call(ends, True))
+        if case.get('mid'):
+            runs.append(one_call(ends, True, mid=case['mid']))
+        else:
+            if case.get('late'):
+                runs.append(one_call(ends, False))
+            do_register(ends)
+            runs.append(one_call(ends, True))
         if case.get('second'):
             runs.append(one_call(make_ends(), False))
     return {'runs': runs}
@@ -816,23 +911,29 @@ def stages_of(case, active):
     mode = c['mode']
     nrep, has_im = reply_shape(c)
     L = c['listeners'] if active else {}
+    mid = c.get('mid') if active else None     # (h, g): registration after h requests and g replies
     st = []
 
-    def add(key, payload, observe):
+    def add(key, payload, observe, before=False):
+        """before: the occurrence precedes the mid-call registration (no listener exists yet)"""
         side, ev = key.split(':')
         st.append({'key': key, 'side': side.upper(), 'event': ev, 'in': payload, 'observe': observe,
-                   'listeners': L.get(key, [])})
+                   'listeners': [] if (mid and before) else L.get(key, [])})
         return len(st) - 1
     if mode in ('client', 'pair'):
-        i_sr = add('c:SendRequest', [c['md0']], 'wire_md')
-        i_sm = [add('c:SendMessage', [r], ('wire_reqs', j)) for j, r in enumerate(c['reqs'])]
+        i_sr = add('c:SendRequest', [c['md0']], 'wire_md', True)
+        i_sm = [add('c:SendMessage', [r], ('wire_reqs', j), bool(mid) and j < mid[0])
+                for j, r in enumerate(c['reqs'])]
     if mode in ('server', 'pair'):
         md_in = ('ref', i_sr, 0) if mode == 'pair' else c['md0']
-        add('s:RecvRequest', [md_in, [0]], 'seen_request')
+        add('s:RecvRequest', [md_in, [0]], 'seen_request', True)
         for j, r in enumerate(c['reqs']):
-            add('s:RecvMessage', [('ref', i_sm[j], 0) if mode == 'pair' else r], ('seen_reqs', j))
-        i_im = add('s:SendInitialMetadata', [c['im0'] if c['explicit_im'] else []], 'wire_im') if has_im else None
-        i_rep = [add('s:SendMessage', [r], ('wire_reps', j)) for j, r in enumerate(c['reps'][:nrep])]
+            add('s:RecvMessage', [('ref', i_sm[j], 0) if mode == 'pair' else r], ('seen_reqs', j),
+                bool(mid) and j < mid[0])
+        i_im = add('s:SendInitialMetadata', [c['im0'] if c['explicit_im'] else []], 'wire_im', True) \
+            if has_im else None
+        i_rep = [add('s:SendMessage', [r], ('wire_reps', j), bool(mid) and j < mid[1])
+                 for j, r in enumerate(c['reps'][:nrep])]
         i_tm = add('s:SendTrailingMetadata', [c['tm0'] if c['explicit_tm'] else []], 'wire_tm')
     if mode in ('client', 'pair'):
         if mode == 'pair':
@@ -843,11 +944,11 @@ def stages_of(case, active):
             im_in = c['im0'] if has_im else []
             tm_in = c['tm0']
             reps_in = c['reps'][:nrep]
-        add('c:RecvInitialMetadata', [im_in], 'client_im')
+        add('c:RecvInitialMetadata', [im_in], 'client_im', True)
         if c['card'][1] == 'U':
             reps_in = reps_in[:1]
         for j, r in enumerate(reps_in):
-            add('c:RecvMessage', [r], ('client_replies', j))
+            add('c:RecvMessage', [r], ('client_replies', j), bool(mid) and j < mid[1])
         add('c:RecvTrailingMetadata', [tm_in], 'client_tm')
     return st
 
@@ -955,7 +1056,18 @@ def check_e2e(ctx, res, cases):
             for key, idxs in by_key.items():
                 want = [ref_outs[si][0] for si in idxs if ref_outs[si][0]]
                 got = run['logs'].get(key, [])
-                if got != want:
+                if len(got) != len(want) and key in ('s:RecvMessage', 'c:RecvMessage', 's:SendMessage',
+                                                       'c:SendMessage'):
+                    # one listener run per message: count the messages the application really got / sent
+                    # while the listeners were registered (handlers and callers drain to end-of-stream)
+                    o = run['obs']
+                    n_app = {'s:RecvMessage': len(o.get('seen', {}).get('reqs', [])),
+                             'c:RecvMessage': len(o.get('client', {}).get('replies', [])),
+                             's:SendMessage': len(case['reps']), 'c:SendMessage': len(case['reqs'])}[key]
+                    fails.append(('%s: the listeners ran for %d occurrence(s) %r but %d message(s) went through '
+                                  'while they were registered (%d in all)' % (
+                                      key, len(got), got, len(want), n_app), 'e2e-count', key))
+                elif got != want:
                     fails.append(('%s: listeners invoked %r per occurrence, expected %r' % (key, got, want),
                                   'e2e-log', key))
                 if ctx.model_ok:
@@ -985,6 +1097,19 @@ def check_e2e(ctx, res, cases):
                     diffs.append((s['key'], s['observe'], mo and mo[1], got))
             for key, lid, rb in run['ro_bad']:
                 fails.append(('%s listener %d: %r' % (key, lid, rb), 'e2e-readonly', key))
+            for who in ('seen', 'client'):
+                if run['obs'].get(who, {}).get('overrun'):
+                    fails.insert(0, ('%s: recv_message kept returning messages after the peer ended the '
+                                     'stream (receive loop stopped by the harness after %d rounds)' % (
+                                         'server handler' if who == 'seen' else 'client', LOOP_SLACK +
+                                         len(case['reqs'] if who == 'seen' else case['reps'])),
+                                     'e2e-overrun', 's:RecvMessage' if who == 'seen' else 'c:RecvMessage'))
+            if run.get('mid'):
+                res.count('e2e:run:mid-call-registration')
+                gates = run['obs'].get('at_gate', [False, False])
+                need = {'client': gates[0], 'server': gates[1], 'pair': gates[0] and gates[1]}[case['mode']]
+                if not need:
+                    fails.append(('the call did not reach the registration point', 'e2e-status', 'call'))
             # the call itself must have completed the way its shape says
             obs = run['obs']
             want_status = 'OK' if case['status'] == 'ok' else 'INTERNAL'
@@ -1034,12 +1159,23 @@ def gen_e2e(rng, mode=None):
 
     def tags():
         return [rng.randint(1, 99) for _ in range(rng.choice([0, 1, 2]))]
+    mid = None
+    if rng.random() < 0.3:
+        # a long-lived streaming call: messages both ways, THEN listen(), then more on the same call
+        card, status = 'SS', rng.choice(['ok', 'ok', 'late'])
+        nreq, nrep = rng.choice([1, 2, 3, 3]), rng.choice([1, 2, 3, 3])
+        mid = [rng.choice([0, nreq]) if rng.random() < 0.2 else rng.randint(1, max(1, nreq - 1)),
+               rng.choice([0, nrep]) if rng.random() < 0.2 else rng.randint(1, max(1, nrep - 1))]
     case = {'kind': 'e2e', 'mode': mode, 'card': card, 'status': status,
             'explicit_im': rng.random() < 0.5, 'explicit_tm': rng.random() < 0.5,
             'md0': tags(), 'im0': tags(), 'tm0': tags(),
             'reqs': [msg() for _ in range(nreq)], 'reps': [msg() for _ in range(nrep)],
             'late': rng.random() < 0.35, 'second': rng.random() < 0.25, 'bits': rng.randrange(64),
             'listeners': {}}
+    if mid:
+        case['mid'] = mid
+        case['explicit_im'] = True
+        case['late'] = False
     if mode == 'client':
         # the scripted server always states im0 / tm0
         case['explicit_im'] = case['explicit_tm'] = True
@@ -1075,7 +1211,9 @@ def run(ctx):
                 'way, explicit/implicit metadata, OK / early error / late error) on a real Channel against a '
                 'scripted h2 server, a real Server against a scripted h2 client, and a real pair '
                 '(ChannelFor), 0..3 listeners on each of the events of the side(s), optionally registered '
-                'after a first call, optionally followed by the same call on fresh end points; distinct = '
+                'after a first call, or registered in the middle of an open streaming call (after h requests and '
+                'g replies went through the same Stream objects), optionally followed by the same call on fresh '
+                'end points; every receive loop is bounded; distinct = '
                 '(event, listeners registered, listeners invoked, how the loop ended, fields assigned)')
     old = logging.root.manager.disable
     logging.disable(logging.CRITICAL)
